@@ -36,10 +36,25 @@ theorem perm_modules_imports (mt : Str → Str → Bool) (a a' : Arch) (hwf : a.
   Pta.perm_modules_imports_lemma mt a a' hwf hn hi lim r
 
 /-- re-applying a rule object (to the same or to another architecture) gives what a fresh rule object gives:
-    the only in-place rewrite (`_convert_aliases`) is idempotent -/
+    the only in-place rewrite (`_convert_aliases`) is idempotent, and it keeps the subjects it removed
+    (`modules_removed_by_alias_conversion`), so the existence check on them (repair of F-C13b) is repeated on the
+    architecture the rule object is applied to next — see the example below -/
 theorem reapply (mt : Str → Str → Bool) (s : RuleState) (g g' : PGraph Str) :
     (assertApplies mt (assertApplies mt s g).1 g').2 = (assertApplies mt s g').2 :=
   Pta.reapply_lemma mt s g g'
+
+/-- the re-application that a first version of the repair got wrong: `[p.a, p.a.zz] should not import anything`, applied
+    to an architecture that has `p.a.zz` and then — the same rule object — to one that has not, raises the lookup error
+    exactly like a fresh rule object (an instance of `reapply`) -/
+example :
+    let s : RuleState := { cfg := { subjects := some [.name "p.a".toList, .name "p.a.zz".toList], shouldNot := true,
+                                    importDir := some true, anything := true }, next := some false }
+    let g := buildGraph ["p".toList, "p.a".toList, "p.a.zz".toList, "q".toList] [] none
+    let g' := buildGraph ["p".toList, "p.a".toList, "q".toList] [] none
+    (assertApplies (fun _ _ => false) s g).2 = .pass ∧
+    (assertApplies (fun _ _ => false) s g).1.cfg.dropped = [.name "p.a.zz".toList] ∧
+    (assertApplies (fun _ _ => false) (assertApplies (fun _ _ => false) s g).1 g').2 = .err .lookupError ∧
+    (assertApplies (fun _ _ => false) s g').2 = .err .lookupError := by decide
 
 theorem convertAliases_idem (c : RuleConfig) : convertAliases (convertAliases c) = convertAliases c :=
   Pta.convertAliases_idem_lemma c
